@@ -23,3 +23,4 @@ func verifSymbolic() bool
 func verifItoa(n int) string
 func verifGlobalsUnchanged() bool
 func verifHasPrefix(s, prefix string) bool
+func verifCutErrors(on bool)
